@@ -268,6 +268,26 @@ func c09Impl(in []int64) []int64 {
 			return inconsistent
 		}
 		return res(out, err)
+	case 1, 3, 5, 7, 9:
+		// Every decryption is preceded by a decryption of the SAME message with ANOTHER secret (result ignored): the
+		// answer must depend on the arguments only, not on what the previous call derived (a memo keyed by the salt,
+		// say).  The message is copied: the in-place variants may overwrite their input.
+		other := append(append([]byte{}, secret...), 'x')
+		msg := append([]byte{}, text...)
+		switch kind {
+		case 1:
+			_, _ = cryptz.Decrypt(msg, other)
+		case 3:
+			_, _ = cryptz.GCMDecrypt(msg, other, ad)
+		case 5:
+			_, _ = cryptz.SaltBySecretCBCDecrypt(msg, other, false)
+		case 7:
+			_, _ = cryptz.SaltBySecretGCMDecrypt(msg, other, ad, false)
+		default:
+			_ = cryptz.DecryptStreamTo(io.Discard, bytes.NewReader(msg), other)
+		}
+	}
+	switch kind {
 	case 1:
 		switch {
 		case sStr && tStr:
